@@ -25,7 +25,7 @@ ASSUMPTIONS = [
     "market.data may be replaced by a resampled frame during a run with interval > 1 min; the supplied frame objects are what must stay unchanged",
 ]
 MIN_NONTRIVIAL = {"quick": 250, "thorough": 5000}
-REQUIRED_LABELS = ["mkt.uni", "mkt.aave", "mkt.sq", "mkt.opt", "mkt.glp", "mkt.gm", "interval.gt1", "cut.first_bar", "cut.middle", "twap.straddles_cut", "write_before_cut", "rerun"]
+REQUIRED_LABELS = ["mkt.uni", "mkt.aave", "mkt.sq", "mkt.opt", "mkt.glp", "mkt.gm", "interval.gt1", "cut.first_bar", "cut.middle", "twap.straddles_cut", "write_before_cut", "rerun", "truncated", "wallet.grows_before_cut"]
 
 D = Decimal
 
@@ -89,6 +89,24 @@ def tail_case(case, cut_row, cut_hour, variant):
     return c
 
 
+def truncate_case(case, cut_row):
+    """H'': the history simply ends after bar k (a data set that ends there agrees with H on bars 0..k)"""
+    c = copy.deepcopy(case)
+
+    for key in ("eth", "osq", "avax"):
+        c[key] = c[key][:cut_row]
+    for key, fields in (("uni", ("noise", "liqs", "in0", "in1")), ("sq", ("noise", "liqs", "in0", "in1", "nf")), ("glp", ("glp", "gp")), ("gm", ("long", "short", "pv_factor"))):
+        if key in c:
+            for f in fields:
+                c[key][f] = c[key][f][:cut_row]
+    if "aave" in c:
+        for f in ("li", "bi"):
+            for t in c["aave"][f]:
+                c["aave"][f][t] = c["aave"][f][t][:cut_row]
+    c["n"] = cut_row
+    return c
+
+
 def fingerprint(df):
     """comparable plain structure of a frame: index, columns, dtypes and every value (nested lists deep-copied)"""
     return case_hash([[str(x) for x in df.index], [str(x) for x in df.columns], [str(t) for t in df.dtypes], [[plain(v) if not isinstance(v, list) else copy.deepcopy(v) for v in row] for row in df.itertuples(index=False, name=None)]])
@@ -126,6 +144,19 @@ def history(u):
     for s in u.actuator.account_status:
         rows.append({"ts": str(s.timestamp), "net": plain(s.net_value), "asset": plain(s.asset_value), "bal": {k.name: plain(v) for k, v in s.asset_balances.items()},
                      "mk": {k.name: multi.summarize(v) for k, v in s.market_status.items()}})
+    return rows
+
+
+def history_df(u, upto=None):
+    """rows of Actuator.account_status_df as {column: value}; a blank cell and an absent column are the same thing
+    (a token that enters the wallet later adds a column whose earlier cells are blank)"""
+    df = u.actuator.account_status_df
+    cols = ["/".join(str(getattr(x, "name", x)) for x in (c if isinstance(c, tuple) else (c,))) for c in df.columns]
+    rows = []
+    for ts, row in zip(df.index, df.itertuples(index=False, name=None)):
+        if upto is not None and pd.Timestamp(ts) > upto:
+            break
+        rows.append({"ts": str(ts), **{c: plain(v) for c, v in zip(cols, row) if not (isinstance(v, float) and v != v) and v is not None}})
     return rows
 
 
@@ -194,6 +225,8 @@ def body(case, ctx: Ctx):
         u3, r3 = res3
         h1, h3 = history(u1), history(u3)
         ctx.check(h1 == h3, "rerun.history", lambda: f"second run on the same inputs differs: {first_diff(h1, h3)}", case)
+        d1, d3 = history_df(u1), history_df(u3)
+        ctx.check(d1 == d3, "rerun.history_df", lambda: f"second run on the same inputs gives another account_status_df: {first_diff(d1, d3)}", case)
         a1, a3 = actions_plain(u1), actions_plain(u3)
         ctx.check(a1 == a3, "rerun.actions", lambda: f"second run on the same inputs recorded different actions: {first_diff(a1, a3)}", case)
     # ---- no look-ahead
@@ -207,12 +240,32 @@ def body(case, ctx: Ctx):
             bar_ts = pd.Timestamp(u1.bars[k])
             h1, h2 = history(u1)[: k + 1], history(u2)[: k + 1]
             ctx.check(h1 == h2, "lookahead.history", lambda: f"account history of bars 0..{k} depends on later data: {first_diff(h1, h2)}", case)
+            d1, d2 = history_df(u1, bar_ts), history_df(u2, bar_ts)
+            ctx.check(d1 == d2, "lookahead.history_df", lambda: f"account_status_df rows of bars 0..{k} depend on later data: {first_diff(d1, d2)}", case)
+            if any(set(r) != set(d1[0]) for r in d1):
+                labels.add("wallet.grows_before_cut")
             a1, a2 = actions_plain(u1, bar_ts), actions_plain(u2, bar_ts)
             ctx.check(a1 == a2, "lookahead.actions", lambda: f"records of bars 0..{k} depend on later data: {first_diff(a1, a2)}", case)
             o1, o2 = [o for o in r1.outs if o[0] <= k], [o for o in r2.outs if o[0] <= k]
             ctx.check(o1 == o2, "lookahead.outcomes", lambda: f"operation outcomes of bars 0..{k} depend on later data: {first_diff(o1, o2)}", case)
             s1, s2 = [s for s in r1.snaps if s[0] <= k], [s for s in r2.snaps if s[0] <= k]
             ctx.check(s1 == s2, "lookahead.snapshots", lambda: f"snapshots handed to the strategy for bars 0..{k} depend on later data: {first_diff(s1, s2)}", case)
+            # ---- the history simply ends after bar k: what was reported for bars 0..k must not change
+            hours_in = (uc["start"] + cut_row - 1) // 60 - uc["start"] // 60 + 2
+            if "opt" not in uc["order"] or cut_row >= hours_in:  # (the minute grid must still drive the loop)
+                c3 = truncate_case(uc, cut_row)
+                res4 = ctx.guarded("run.H''", case, run, c3)
+                if res4 is not None:
+                    u4, r4 = res4
+                    labels.add("truncated")
+                    h4 = history(u4)
+                    ctx.check(h1 == h4, "truncated.history", lambda: f"account history of bars 0..{k} differs when the data ends after bar {k}: {first_diff(h1, h4)}", case)
+                    d4 = history_df(u4)
+                    ctx.check(d1 == d4, "truncated.history_df", lambda: f"account_status_df rows of bars 0..{k} differ when the data ends after bar {k}: {first_diff(d1, d4)}", case)
+                    a4 = actions_plain(u4)
+                    ctx.check(a1 == a4, "truncated.actions", lambda: f"records of bars 0..{k} differ when the data ends after bar {k}: {first_diff(a1, a4)}", case)
+                    ctx.check(o1 == r4.outs, "truncated.outcomes", lambda: f"operation outcomes of bars 0..{k} differ when the data ends after bar {k}: {first_diff(o1, r4.outs)}", case)
+                    ctx.check(s1 == r4.snaps, "truncated.snapshots", lambda: f"snapshots of bars 0..{k} differ when the data ends after bar {k}: {first_diff(s1, r4.snaps)}", case)
             accepted = any(o[3] == "ok" for o in o1)
             if accepted:
                 labels.add("write_before_cut")
